@@ -79,6 +79,7 @@ def profile(**kw):
     "geometry": "safe",      # none | safe (see _safe_settings) | all (every combination) | numbers (line-number ladders)
                              # | fractional (safe shapes with fractional percentages)
     "empty_payload": False,  # cues without payload
+    "ws_lines": False,       # payload lines made of spaces / tabs only (not empty, so they do not end the cue)
     "odd_ids": False,        # identifiers that begin like a NOTE / STYLE block
     "blocks": True,          # NOTE / STYLE / REGION blocks
     "depth": 3,
@@ -407,11 +408,15 @@ def _kids(draw, prof, depth, where, min_size=0):
       kinds += ["ts"] * 2
   if not in_ruby and prof["ruby"] != "none" and depth < prof["depth"] and (prof["ruby"] == "nested" or depth == 0):
     kinds += ["ruby"] * (1 if prof["ruby"] == "top" else 3)
+  if prof["ws_lines"] and where == "top":
+    kinds += ["wsline"] * 3
   n = draw(st.integers(min_size, 5 if depth == 0 else 4 if depth < 2 else 3))
   out = []
   for _ in range(n):
     k = draw(st.sampled_from(kinds))
-    if k == "text":
+    if k == "wsline":
+      out += [{"t": "nl"}, {"t": "text", "s": draw(st.sampled_from([" ", "\t", "  ", " \t"])), "ws": True}, {"t": "nl"}]
+    elif k == "text":
       out.append(draw(_text_node()))
     elif k == "ent":
       out.append(draw(_entity(prof)))
@@ -668,11 +673,12 @@ def validate(desc):
     assert "-->" not in raw, "arrow in payload"
     if b["nodes"]:
       lines = raw.split("\n")
-      assert 1 <= len(lines) <= 4 and all(l.strip(" \t") for l in lines), "payload lines %r" % (lines,)
+      assert 1 <= len(lines) <= 4 and all(l != "" for l in lines), "payload lines %r" % (lines,)
+      assert all(l.strip(" \t") for l in lines) or any(n.get("ws") for n in b["nodes"]), "payload lines %r" % (lines,)
     last = b["begin"]
     for n in walk_nodes(b["nodes"]):
       if n["t"] == "text":
-        assert n["s"].strip(" ") and not any(c in n["s"] for c in "&<\r\n"), "text %r" % n["s"]
+        assert (n["s"].strip(" ") or n.get("ws")) and not any(c in n["s"] for c in "&<\r\n"), "text %r" % n["s"]
       elif n["t"] == "ts":
         assert last < n["ms"] < b["end"], "timestamp order"
         last = n["ms"]
@@ -833,6 +839,8 @@ def cue_features(b):
   nodes = b["nodes"]
   if not nodes:
     f.add("empty-payload")
+  if any(not l.strip(" \t") for l in render_nodes(nodes).split("\n")) and nodes:
+    f.add("white-space-only-line")
   if b["id"] is not None and (b["id"].startswith("NOTE ") or b["id"].startswith("STYLE")):
     f.add("identifier-like-block-keyword")
   for n in walk_nodes(nodes):
